@@ -303,6 +303,9 @@ def r6_float_to_fixed_guarded(ck, P):
                     continue
                 a0, a1 = c.a
                 pred = c.d['p']
+                # any comparison of d that is ordered and holds, or unordered and fails, on the way here excludes NaN (d != d, isnan)
+                if base in (a0, a1) and ((pred[0] == 'o' and pred != 'one' and t.d['succ'][0] == s_) or (pred in ('ord',) and t.d['succ'][0] == s_) or (pred[0] == 'u' and t.d['succ'][0] != s_)):
+                    nan_excluded = True
                 if a0[0] == 'fc' and a1 == base:
                     a0, a1 = a1, a0
                     pred = {'olt': 'ogt', 'ole': 'oge', 'ogt': 'olt', 'oge': 'ole', 'ult': 'ugt', 'ule': 'uge', 'ugt': 'ult', 'uge': 'ule'}.get(pred, pred)
